@@ -38,7 +38,8 @@ class OverRead(BaseException):
 
 class Clause(object):
   def __init__(self, name, strategy, run_case, quick, thorough, floors=None,
-               shards=None, doc=""):
+               shards=None, doc="", fuzz=None):
+    self.fuzz = fuzz or {}        # tier -> total libFuzzer (atheris) runs over this clause's test
     self.name = name
     self.strategy = strategy      # callable(tier) -> hypothesis strategy
     self.run_case = run_case      # callable(case) -> {"nontrivial":bool,"labels":[...]}
@@ -267,6 +268,67 @@ def _run_regress(mod):
   return [res]
 
 
+def _run_fuzz(mod, tier, seedv, only, errors):
+  """Coverage-guided tier: atheris/libFuzzer campaigns over the same Hypothesis tests
+  (vlib/fuzz_child.py), 16 processes per clause; results come back as clause '<name>@atheris'."""
+  import shutil
+  import subprocess
+  import tempfile
+  out = []
+  for ci, clause in enumerate(list(mod.CLAUSES)):
+    total = getattr(clause, "fuzz", {}).get(tier, 0) if clause.kind == "hypothesis" else 0
+    if not total or (only and clause.name not in only):
+      continue
+    nproc = int(os.environ.get("VERIF_JOBS", "16"))
+    per = max(200, total // nproc)
+    tmp = tempfile.mkdtemp(prefix="verif-fuzz.")
+    procs = []
+    try:
+      for i in range(nproc):
+        d = os.path.join(tmp, "p%d" % i)
+        cmd = [sys.executable, "-B", "-W", "ignore", "-m", "vlib.fuzz_child", mod.__name__, str(ci), tier,
+               str(mix(seedv, "fuzz", i) % 10 ** 6), str(per), d]
+        procs.append((d, subprocess.Popen(cmd, cwd=ROOT, stdout=subprocess.DEVNULL, stderr=subprocess.PIPE)))
+      merged = _Stats()
+      fails = []
+      for d, p in procs:
+        try:
+          _, err = p.communicate(timeout=float(os.environ.get("VERIF_WALL_S", 7200)))
+        except subprocess.TimeoutExpired:
+          p.kill()
+          errors.append("%s@atheris: campaign did not finish (inconclusive)" % clause.name)
+          continue
+        sp = os.path.join(d, "stats.json")
+        if not os.path.exists(sp):
+          errors.append("%s@atheris: campaign produced no statistics: %s" % (clause.name, err.decode(errors="replace")[-300:]))
+          continue
+        with open(sp) as f:
+          r = json.load(f)
+        merged.evals += r["evals"]
+        merged.rejected += r["rejected"]
+        merged.nt |= set(r["nt"])
+        for k, v in r["labels"].items():
+          merged.labels[k] = merged.labels.get(k, 0) + v
+        for smp in r["samples"]:
+          if len(merged.samples) < 3:
+            merged.samples[len(merged.samples)] = smp
+        fp = os.path.join(d, "fail.json")
+        if os.path.exists(fp):
+          with open(fp) as f:
+            fails.append(json.load(f))
+        elif p.returncode != 0:
+          errors.append("%s@atheris: libFuzzer exited %d without a recorded failing case: %s"
+                        % (clause.name, p.returncode, err.decode(errors="replace")[-300:]))
+      res = merged.result()
+      res["error"] = None
+      res["fails"] = fails
+      res["name"] = clause.name
+      out.append(res)
+    finally:
+      shutil.rmtree(tmp, ignore_errors=True)
+  return out
+
+
 def load_known():
   path = os.path.join(ROOT, "known_findings.json")
   if not os.path.exists(path):
@@ -363,11 +425,24 @@ def run_property(mod, tier, seedv, only=None, jobs=None):
     if r["error"]:
       m["errors"].append(r["error"])
 
+  # coverage-guided tier (atheris) for the clauses that ask for it
+  fuzz_errors = []
+  for r in _run_fuzz(mod, tier, seedv, only, fuzz_errors):
+    class _F(object):
+      kind = "atheris"
+      floors = {}
+    fc = _F()
+    fc.name = r["name"] + "@atheris"
+    fc.doc = "libFuzzer (atheris) campaign over the same test through hypothesis.fuzz_one_input, audiolazy instrumented for coverage"
+    per[fc.name] = {"evals": r["evals"], "rejected": r["rejected"], "nt": r["nt"], "ntc": 0,
+                    "labels": r["labels"], "samples": r["samples"], "errors": [], "clause": fc,
+                    "fails": [dict(f, clause=r["name"]) for f in r["fails"]]}
+
   known = [k for k in load_known() if k.get("property") == mod.ID]
   open_findings = {k["site"]: k for k in known if k.get("status") == "finding"}
   violations = []
   known_hits = {}
-  errors = []
+  errors = list(fuzz_errors)
   rdir = os.environ.get("VERIF_REPLAY_DIR") or os.path.join(ROOT, "replays")
   edir = os.environ.get("VERIF_EVIDENCE_DIR") or os.path.join(ROOT, "evidence")
   os.makedirs(rdir, exist_ok=True)
